@@ -65,7 +65,7 @@ def csvfile_runner(case):
     d = os.path.join(os.getcwd(), 'c09_%d' % os.getpid())
     os.makedirs(d, exist_ok=True)
     a = os.path.join(d, 'a.csv')
-    b = os.path.join(d, 'b.csv')
+    b = os.path.join(d, 'tb.csv')      # not 'b.csv': the path is query text and 'b.csv' would read as the variable b.csv
     o = os.path.join(d, 'out.csv')
     with open(a, 'w', encoding='utf-8', newline='') as f:
         f.write(csv_text(case['records']))
